@@ -68,9 +68,11 @@ func c19Maintenance() *core.Scenario {
 // a 32-frame pool never evicts; these are the operations every statement performs underneath.)
 func c19BPMScenarios() []*core.Scenario {
 	type body func(bpm *buffer.BufferPoolManager, pids []types.PageID)
+	// a pin holder changes the page the way the library's own page code does: under the write latch, through
+	// Page.Copy (a library frame: the report is then attributed to library code on both sides)
 	touch := func(pg *page.Page, b byte) {
 		pg.WLatch()
-		pg.Data()[100] = b
+		pg.Copy(100, []byte{b})
 		pg.WUnlatch()
 	}
 	fetchDirty := func(i int) body {
@@ -185,6 +187,9 @@ type raceReport struct {
 	a, b   string // first library frames of the two accesses (function names without line numbers)
 	fa, fb string // their files
 	text   string
+	// viaFlushPage[i]: access i is the page write-out of BufferPoolManager.FlushPage (DiskManager.WritePage
+	// reading the page bytes, called from FlushPage)
+	viaFlushPage [2]bool
 }
 
 // parseRaceLog splits the detector's log into reports and extracts, for each of the two accesses, the
@@ -198,6 +203,7 @@ func parseRaceLog(text string) []raceReport {
 		lines := strings.Split(blk, "\n")
 		var sites [][2]string
 		var tops []string // innermost frame of each access
+		var flush []bool  // the access' stack contains BufferPoolManager.FlushPage below a WritePage frame
 		inAccess := false
 		for i := 0; i < len(lines); i++ {
 			l := lines[i]
@@ -206,10 +212,14 @@ func parseRaceLog(text string) []raceReport {
 				inAccess = true
 				sites = append(sites, [2]string{"", ""})
 				tops = append(tops, "")
+				flush = append(flush, false)
 				continue
 			}
 			if strings.HasPrefix(l, "Goroutine") || strings.HasPrefix(l, "Mutex") {
 				inAccess = false
+			}
+			if inAccess && len(sites) > 0 && strings.Contains(l, "storage/buffer.(*BufferPoolManager).FlushPage(") && strings.HasSuffix(sites[len(sites)-1][0], "DiskManagerImpl).WritePage") {
+				flush[len(flush)-1] = true
 			}
 			if !inAccess || len(sites) == 0 || sites[len(sites)-1][0] != "" {
 				continue
@@ -234,6 +244,7 @@ func parseRaceLog(text string) []raceReport {
 		}
 		if len(sites) >= 2 {
 			r := raceReport{a: sites[0][0], fa: sites[0][1], b: sites[1][0], fb: sites[1][1], text: blk}
+			r.viaFlushPage = [2]bool{flush[0], flush[1]}
 			// an access without a library frame: an atomic operation of library code that was inlined into
 			// its caller (the other access decides the scope) - anything else is the harness' own access
 			// ... and when library frames are left, the innermost one may be a caller of the function that really
@@ -252,6 +263,14 @@ func parseRaceLog(text string) []raceReport {
 				} else {
 					r.b, r.fb = "(atomic in "+r.b+")", ""
 				}
+			}
+			// FlushPage writes a page out without taking its latch (NewTableHeap calls it while holding the write
+			// latch, so it cannot): every writer of page bytes that holds the latch races with it. One cause, one
+			// signature - whatever the writer is
+			if r.viaFlushPage[0] && !r.viaFlushPage[1] && strings.HasPrefix(r.fb, "storage/") {
+				r.a, r.fa, r.b = "buffer.(*BufferPoolManager).FlushPage[page-bytes-read-without-the-page-latch]", "storage/buffer/buffer_pool_manager.go", "(a-page-writer)"
+			} else if r.viaFlushPage[1] && !r.viaFlushPage[0] && strings.HasPrefix(r.fa, "storage/") {
+				r.b, r.fb, r.a = "buffer.(*BufferPoolManager).FlushPage[page-bytes-read-without-the-page-latch]", "storage/buffer/buffer_pool_manager.go", "(a-page-writer)"
 			}
 			if r.a > r.b {
 				r.a, r.b, r.fa, r.fb = r.b, r.a, r.fb, r.fa
